@@ -215,7 +215,9 @@ C18Laws ==
     \A ah \in 0 .. 255 : \A n \in {16, 33} :
       /\ SupportedAh(n, ah) = (<<n, ah>> \in {<<16, 10>>, <<16, 19>>, <<33, 1>>, <<33, 2>>, <<33, 10>>})
       /\ SupportedAh(n, ah) =>
-           \A line \in {<< >>, <<NL>>, <<97, NL>>, <<97, 98, 99, NL>>, <<97, 98>>} :
+           \* (the last two lines are longer than any capacity a byte can hold: the clamp must bind -- found by specmut:
+           \* with short lines only, a Service that ignored the capacity satisfied these laws)
+           \A line \in {<< >>, <<NL>>, <<97, NL>>, <<97, 98, 99, NL>>, <<97, 98>>, [k \in 1 .. 300 |-> 97 + (k % 26)] \o <<NL>>, [k \in 1 .. 256 |-> 65]} :
              LET r == Service(LawM, n, ah, line)
                  base == Phys(65535, 65283)
                  cap == Rd(LawM, base)
